@@ -6,6 +6,7 @@ let table : (Stdlib.String.t * (z list -> z list)) list = [
   "c12_lin", c12_lin_entry;
   "m1c", m1c_entry;
   "m1c_h", m1c_h_entry;
+  "m1c_fresh", m1c_fresh_entry;
   "m1s", m1s_entry;
   "c08rt", c08rt_entry;
   "c18", c18_entry;
